@@ -12,7 +12,9 @@ import (
 	"google.golang.org/protobuf/types/known/timestamppb"
 
 	"github.com/smart-core-os/sc-api/go/traits"
+	"github.com/smart-core-os/sc-golang/pkg/resource"
 	"github.com/smart-core-os/sc-golang/pkg/trait/countpb"
+	"github.com/smart-core-os/sc-golang/pkg/trait/electricpb"
 	"github.com/smart-core-os/sc-golang/verifharness/lib"
 )
 
@@ -290,6 +292,164 @@ func runRim8(f lib.Flags, res *lib.Result) {
 		}
 		mon.Eval(lines[i], nt, nil)
 		countViolation(c, changed, mon)
+		tie.Record(lines[i], nt, c, model[i], ans)
+	}
+	runRim8b(f, res)
+}
+
+// ---- electricpb Model.SetActiveMode: the exported entry point that hands the CALLER's message to the write ----------
+//
+// Lean: ScVerif/C07/Rim5.lean `setActive` (the id must be known, then activeMode.Set(mode) without interceptor).
+
+type setActiveCase struct {
+	Kind   string   `json:"kind"`   // "setactive"
+	W      string   `json:"w"`      // writable fields of the active mode resource, as in activeCase
+	Active string   `json:"active"` // id:title:description of the initial active mode
+	Modes  []string `json:"modes"`  // id:title:description of the initial modes
+	Calls  []string `json:"calls"`  // id:title:description:start (- = no start time), one caller message per SetActiveMode call
+}
+
+func (c setActiveCase) line() string {
+	return fmt.Sprintf("rim setactive %s %s %s %s", c.W, c.Active, joinOrDash(c.Modes, ";"), strings.Join(c.Calls, ","))
+}
+
+func runSetActiveCase(c setActiveCase) (ans string, changed []string) {
+	panicked, msg := lib.Catch(func() {
+		var init []*traits.ElectricMode
+		for _, s := range c.Modes {
+			init = append(init, parseEMode(s))
+		}
+		opts := []resource.Option{electricpb.WithInitialActiveMode(parseEMode(c.Active)), electricpb.WithInitialMode(init...)}
+		if c.W != "-" {
+			var paths []string
+			for i, p := range []string{"id", "title", "description", "start_time"} {
+				if c.W[i] == '1' {
+					paths = append(paths, p)
+				}
+			}
+			opts = append(opts, electricpb.WithActiveModeOption(resource.WithWritableFields(&fieldmaskpb.FieldMask{Paths: paths})))
+		}
+		m := electricpb.NewModel(opts...)
+		type held struct {
+			ptr, copy *traits.ElectricMode
+			what      string
+		}
+		var before []held
+		hold := func(md *traits.ElectricMode, what string) {
+			before = append(before, held{md, proto.Clone(md).(*traits.ElectricMode), what})
+		}
+		for _, s := range c.Modes {
+			if md, ok := m.FindMode(parseEMode(s).Id); ok {
+				hold(md, "the stored mode "+md.Id+" (FindMode before the calls)")
+			}
+		}
+		hold(m.ActiveMode(), "the initial active mode")
+		var outs []string
+		var own []*traits.ElectricMode
+		for k, s := range c.Calls {
+			p := strings.Split(s, ":")
+			md := parseEMode(s)
+			if len(p) > 3 && p[3] != "-" {
+				sec, _ := strconv.ParseInt(p[3], 10, 64)
+				md.StartTime = &timestamppb.Timestamp{Seconds: sec}
+			}
+			own = append(own, md)
+			err := m.SetActiveMode(md)
+			switch {
+			case err == electricpb.ErrModeNotFound:
+				outs = append(outs, "nf")
+			case err != nil:
+				outs = append(outs, "err("+err.Error()+")")
+			default:
+				act := m.ActiveMode()
+				outs = append(outs, showEMode(act))
+				hold(act, fmt.Sprintf("the active mode after call %d", k))
+			}
+		}
+		var after, owns []string
+		for _, s := range c.Modes {
+			if md, ok := m.FindMode(parseEMode(s).Id); ok {
+				after = append(after, showEMode(md))
+			} else {
+				after = append(after, "<gone>")
+			}
+		}
+		// the caller edits what it passed, after the calls: nothing it was handed or the model holds may follow
+		for _, md := range own {
+			owns = append(owns, showEMode(md))
+			md.Title += "!"
+			if md.StartTime != nil {
+				md.StartTime.Seconds += 1000
+			}
+		}
+		for _, b := range before {
+			if !proto.Equal(b.ptr, b.copy) {
+				changed = append(changed, fmt.Sprintf("%s was %s and is now %s", b.what, txt(b.copy), txt(b.ptr)))
+			}
+		}
+		ans = strings.Join(outs, ",") + "|modes=" + strings.Join(after, ";") + "|own=" + strings.Join(owns, ";")
+	})
+	if panicked {
+		return "panic:" + msg, changed
+	}
+	return ans, changed
+}
+
+func setActiveCases() []setActiveCase {
+	var out []setActiveCase
+	for _, w := range []string{"-", "0000", "1000", "0100", "1100", "0010", "1110", "0001", "1101", "1111"} {
+		for _, act := range []string{"::", "a:X:y"} {
+			for _, ms := range [][]string{nil, {"a:A:da"}, {"a:A:da", "b:B:"}} {
+				for _, calls := range [][]string{{"a:::9"}, {"a:A2:d2:-"}, {"b:T::3"}, {"c:Q:q:4"}, {"a:::9", "a:T::-"}, {"a:A:da:5", "b:::6"},
+					{"b:B1:x:2", "a:::-", "c:::7", "a:Z:z:8"}} {
+					out = append(out, setActiveCase{Kind: "setactive", W: w, Active: act, Modes: ms, Calls: calls})
+				}
+			}
+		}
+	}
+	return out
+}
+
+func setActiveViolation(c setActiveCase, changed []string, mon *lib.Monitor) {
+	if len(changed) > 0 {
+		mon.Violate("C07/electricpb/SetActiveMode/published-mode-changes", "a mode obtained before changed: "+strings.Join(changed, "; "),
+			c, "stored modes and earlier active modes read as they did (SetActiveMode writes the active mode resource only; the caller's later edits of its own message reach nothing)", strings.Join(changed, "; "))
+	}
+}
+
+func runRim8b(f lib.Flags, res *lib.Result) {
+	tie := res.Tie("rim-set-active-mode", "K2",
+		"electricpb Model.SetActiveMode (the caller's message is the source of the write) vs the Lean `setActive`: writable fields of the active mode resource {not configured, empty mask, "+
+			"8 subsets of id/title/description/start_time} x initial active mode {empty, a with other contents} x initial modes {none, a, a+b} x 7 scripts of 1-4 calls (known and unknown ids, "+
+			"with and without start time); the whole domain; compared: the active mode after every call, the stored modes afterwards and the caller's messages afterwards (the write filters "+
+			"them in place); non-trivial = at least one call finds its mode")
+	tie.Exhaustive = true
+	mon := res.Monitor("rim-set-active-mode-frame", "on the same cases: the stored modes (FindMode before the calls), the initial active mode and the active mode read after every call are as they were, "+
+		"also after the caller edited every message it passed")
+	drv, err := lib.StartDriver(f.Driver)
+	if err != nil {
+		tie.Fail(err)
+		return
+	}
+	defer drv.Close()
+	cs := setActiveCases()
+	lines := make([]string, len(cs))
+	for i, c := range cs {
+		lines[i] = c.line()
+	}
+	model, err := drv.Batch(lines)
+	if err != nil {
+		tie.Fail(err)
+		return
+	}
+	for i, c := range cs {
+		ans, changed := runSetActiveCase(c)
+		nt := false
+		for _, o := range strings.Split(strings.SplitN(ans, "|", 2)[0], ",") {
+			nt = nt || (o != "nf" && !strings.HasPrefix(o, "err(") && !strings.HasPrefix(o, "panic:"))
+		}
+		mon.Eval(lines[i], nt, nil)
+		setActiveViolation(c, changed, mon)
 		tie.Record(lines[i], nt, c, model[i], ans)
 	}
 }
